@@ -152,8 +152,7 @@ let run_case (line : string) : string =
   | _ -> "BADCASE"
 
 (* C17: chk_C17 (extracted) on the implementation's trace; the wake-up requests against the
-   model's due times; a rejection is attributed to the known class only if the history is in
-   the class (`late`) and the trace is exactly what the model of the code predicts *)
+   model's due times *)
 let first_diff (exp : out list) (obs : out list) : string =
   let rec go k e o = match e, o with
     | [], [] -> "none"
@@ -173,8 +172,6 @@ let mon_c17 (case : string list) (result : string) : string =
     let obs = parse_obs result in
     if chk_C17 h obs then
       (if wakes_ok hw then "PASS" else "FAIL[wake] the daemon asked to be woken later than the next due time of a search")
-    else if late h && result = string_of_obs (observe (run h)) then
-      "FAIL[late-rerun-after-timeout] " ^ first_diff (sp_run h) obs
     else "FAIL trace is not what the property prescribes: " ^ first_diff (sp_run h) obs
   | _ -> "BADCASE"
 
